@@ -7,6 +7,7 @@ import (
 	"fmt"
 	"math/rand"
 	"os"
+	"runtime"
 	"strings"
 	"sync"
 	"time"
@@ -33,7 +34,8 @@ func par(n int, f func(i int)) {
 
 // standard zones: z1 -> set s1, z2 -> set s2, z3 in no set
 func stdSets() map[string][]string {
-	return map[string][]string{"s1": {"domain:z1.test", "# comment"}, "s2": {"z2.test", "full:exact.z3.test"}}
+	// a parent listed before one of its sub-domains (s1) and after one (s2): both orders must keep the parent
+	return map[string][]string{"s1": {"domain:z1.test", "# comment", "domain:www.z1.test"}, "s2": {"deep.sub.z2.test", "z2.test", "full:exact.z3.test"}}
 }
 
 // ---------------------------------------------------------------- C03 (+C12 response side, C04 light)
@@ -111,6 +113,17 @@ func modeC03(thorough bool) {
 		time.Sleep(time.Duration(i%40) * 5 * time.Millisecond)
 		in.send(jobs[i].lst, "", jobs[i].q, 9*time.Second, jobs[i].hdr)
 	})
+	// a UDP client that advertises 65535 octets and an answer of 65508..65535 octets: legal for the advertised
+	// size, impossible as one datagram. The client still gets a response, and the listener keeps answering.
+	for k := 0; k < 2; k++ {
+		// (a short name: the proxy decides with the uncompressed record length whether a record still fits)
+		jn := fmt.Sprintf("j%d.z2.test.", k)
+		in.ups["u2"].setSeq(jn, "r0t60d0fJ", "r0t60d0fJ")
+		jq := mkq(jn)
+		jq.opt, jq.optsize = true, 65535
+		in.send("udp", "", jq, 4*time.Second, nil)
+		par(6, func(i int) { in.send("udp", "", mkq(fmt.Sprintf("%s.r0t60d0.z1.test.", uniq())), 3*time.Second, nil) })
+	}
 	time.Sleep(100 * time.Millisecond)
 }
 
@@ -163,6 +176,45 @@ func modeC10(rulesFile string) {
 		}(li, rl)
 	}
 	wg.Wait()
+}
+
+// background refreshes must go to the rule's upstream with the entry's own question: entries of zone z1 (u1)
+// are hit in their refresh window while bursts of queries for zone z2 (u2) recycle the request objects;
+// few Ps, so that the refresh goroutine runs after the hitting request has finished.
+func modeC10Prefetch() {
+	in, err := newInst("c10-pf", instOpts{
+		listeners: []string{"udp", "tcp"},
+		upstreams: map[string]string{"u1": "udp", "u2": "tcp"},
+		sets:      stdSets(),
+		rules:     []ruleSpec{{Set: "s1", Forward: "u1"}, {Forward: "u2"}},
+		cacheMem:  4 << 20,
+	})
+	if err != nil {
+		panic(err)
+	}
+	defer in.close()
+	var hot []string
+	for i := 0; i < 24; i++ {
+		hot = append(hot, fmt.Sprintf("%s.r0t8d%d.z1.test.", uniq(), 5+i%10))
+	}
+	par(len(hot), func(i int) { in.send("udp", "", mkq(hot[i]), 3*time.Second, nil) })
+	time.Sleep(6350 * time.Millisecond)
+	old := runtime.GOMAXPROCS(2)
+	for round := 0; round < 3; round++ {
+		par(len(hot)*4, func(i int) {
+			if i%4 == 0 {
+				if round == 0 {
+					in.send("udp", "", mkq(hot[i/4]), 3*time.Second, nil)
+				}
+				return
+			}
+			q := mkq(fmt.Sprintf("%s.r0t60d2.z2.test.", uniq()))
+			q.typ = []uint16{dns.TypeAAAA, dns.TypeTXT, dns.TypeMX}[i%3]
+			in.send([]string{"udp", "tcp"}[i%2], "", q, 3*time.Second, nil)
+		})
+	}
+	runtime.GOMAXPROCS(old)
+	time.Sleep(300 * time.Millisecond)
 }
 
 // ---------------------------------------------------------------- C10: start-up decisions (in-process)
